@@ -5,7 +5,8 @@
 From Coq Require Import String.
 From Coq Require Import ZArith List Bool.
 From LasV Require Import Lib.Base Lib.Layout Gen.GenFormatBits Gen.GenDims Gen.GenHeaderLayout Gen.GenC02
-  Spec.Asprs Spec.AsprsPoints Model.SubField Model.PointLayout Proofs.PointLayoutProofs.
+  Spec.Asprs Spec.AsprsPoints Model.SubField Model.PointLayout Proofs.PointLayoutProofs
+  Model.RecordPlace Proofs.RecordPlaceProofs.
 Import ListNotations.
 Open Scope list_scope.
 Open Scope Z_scope.
@@ -264,6 +265,67 @@ Theorem C02_legacy_counts :
 Proof. exact legacy_counts. Qed.
 Print Assumptions C02_legacy_counts.
 
+(* ---------------- where the records are: offset_to_point_data + i * record_length ---------------- *)
+
+(* a file laid out as the specification says — [off] bytes of header, VLRs and whatever precedes the points, the records one
+   after the other, ANY bytes behind them (padding, waveform data packets, EVLRs): record i is the [ps] bytes at off + i * ps *)
+Theorem C02_record_position : forall (pre post : list Z) (recs : list (list Z)) off ps i,
+  len pre = off -> Forall (fun r => len r = ps) recs -> 0 <= i < len recs ->
+  record_at (pre ++ concat recs ++ post) off ps i = nth (Z.to_nat i) recs [].
+Proof. exact record_in_run. Qed.
+Print Assumptions C02_record_position.
+
+(* ... and the specification's decoder, cutting the announced records out there, recovers the values of every record the
+   laspy-layout encoder produced (any format, extra-bytes descriptors, undocumented bytes) *)
+Theorem C02_decoder_finds_all_records : forall f ebs t (pre post : list Z) (recs valss : list (list Z)) off ps,
+  0 <= f <= 10 -> len pre = off -> Forall (fun r => len r = ps) recs ->
+  Forall2 (fun vals r => gen_enc_point_rl f ebs t vals = Ok r) valss recs ->
+  spec_dec_records f ebs t (pre ++ concat recs ++ post) off ps (len recs) = Ok valss.
+Proof. exact decoder_finds_all_records. Qed.
+Print Assumptions C02_decoder_finds_all_records.
+
+(* LasAppender.__init__ (the branch for uncompressed files, translated from the source on every run into Gen/GenC02.v
+   append_start over the header's fields and the file's length): the stream is left at the end of the point records the header
+   announces — for every version, with or without EVLRs, whatever the file's length *)
+Theorem C02_appender_start : forall off n ps flen minor nev sfe, append_start off n ps flen minor nev sfe = off + n * ps.
+Proof. exact append_start_spec. Qed.
+Print Assumptions C02_appender_start.
+
+(* an append session (any number of append_points calls, empty ones included) on ANY file that holds the n records its
+   header announces, whatever follows them: the file's records stay, appended record j is record n + j of the file, the
+   bytes before the first record (header block, VLRs) are not touched by the point writes *)
+Theorem C02_append_places_records : forall (file : list Z) off n ps minor nev sfe (chunks : list (list (list Z))),
+  0 <= off -> 0 <= n -> 0 < ps -> off + n * ps <= len file ->
+  Forall (Forall (fun r => len r = ps)) chunks ->
+  let file' := append_session file off n ps minor nev sfe chunks in
+  (forall i, 0 <= i < n -> record_at file' off ps i = record_at file off ps i)
+  /\ (forall j, 0 <= j < len (concat chunks) -> record_at file' off ps (n + j) = nth (Z.to_nat j) (concat chunks) [])
+  /\ take off file' = take off file.
+Proof. exact append_places_records. Qed.
+Print Assumptions C02_append_places_records.
+
+Theorem C02_decoder_reads_appended : forall f ebs t (file : list Z) off n ps minor nev sfe (chunks : list (list (list Z))),
+  0 <= f <= 10 -> 0 <= off -> 0 <= n -> 0 < ps -> off + n * ps <= len file ->
+  Forall (Forall (fun r => len r = ps)) chunks ->
+  forall j vals, 0 <= j < len (concat chunks) ->
+    gen_enc_point_rl f ebs t vals = Ok (nth (Z.to_nat j) (concat chunks) []) ->
+    spec_dec_point_rl f ebs t (record_at (append_session file off n ps minor nev sfe chunks) off ps (n + j)) = Ok vals.
+Proof. exact decoder_reads_appended. Qed.
+Print Assumptions C02_decoder_reads_appended.
+
+(* a record replaced in place (assignment through the memory map): it is the record the decoder finds, every other record,
+   everything before the first and behind the last record and the file's length stay *)
+Theorem C02_edit_in_place : forall (file : list Z) off n ps i (rec : list Z),
+  0 <= off -> 0 < ps -> 0 <= i < n -> off + n * ps <= len file -> len rec = ps ->
+  let file' := edit_record file off ps i rec in
+  record_at file' off ps i = rec
+  /\ (forall k, 0 <= k < n -> k <> i -> record_at file' off ps k = record_at file off ps k)
+  /\ take off file' = take off file
+  /\ drop (off + n * ps) file' = drop (off + n * ps) file
+  /\ len file' = len file.
+Proof. exact edit_in_place. Qed.
+Print Assumptions C02_edit_in_place.
+
 (* a format-6 record with one int16[2] extra dimension: every bit field at its maximum, signed extremes, a NaN payload
    in gps_time; 34 bytes; the laspy-layout encoder and the specification's decoder; an out-of-range return number refused *)
 Example C02_nonvacuous :
@@ -279,5 +341,11 @@ Example C02_nonvacuous :
   /\ gen_record_summary 1 [("h"%string, 3, 0)] true 34 = Ok (21, 34)
   /\ resolve_record 34 28 2 true = Ok (true, 4) /\ resolve_record 34 28 2 false = Ok (false, 6)
   /\ resolve_record 28 28 2 true = Ok (false, 0) /\ resolve_record 29 28 2 true = Err ELaspy
-  /\ spec_dec_point_rl 1 [("h"%string, 3, 0)] 2 (repeat 0 28 ++ [1; 2; 7; 9]) = Ok (repeat 0 16 ++ [513; 7; 9]).
+  /\ spec_dec_point_rl 1 [("h"%string, 3, 0)] 2 (repeat 0 28 ++ [1; 2; 7; 9]) = Ok (repeat 0 16 ++ [513; 7; 9])
+  (* a "file" with 2 bytes before its one 2-byte record and 3 foreign bytes behind it: two appended records overwrite them and
+     extend the file; with 6 foreign bytes one appended record leaves the last 4; record 2 is found at 2 + 2 * 2 *)
+  /\ append_session [9; 9; 1; 2; 7; 7; 7] 2 1 2 2 0 0 [[[3; 4]]; []; [[5; 6]]] = [9; 9; 1; 2; 3; 4; 5; 6]
+  /\ append_session [9; 9; 1; 2; 7; 7; 7; 7; 7; 7] 2 1 2 4 0 0 [[[3; 4]]] = [9; 9; 1; 2; 3; 4; 7; 7; 7; 7]
+  /\ record_at [9; 9; 1; 2; 3; 4; 5; 6] 2 2 2 = [5; 6]
+  /\ edit_record [9; 9; 1; 2; 3; 4; 7] 2 2 1 [8; 8] = [9; 9; 1; 2; 8; 8; 7].
 Proof. vm_compute. repeat split; reflexivity. Qed.
